@@ -70,6 +70,14 @@ func oracleC08(f *sessionFam, w *World, res *Result) []Violation {
 					ok = true
 				}
 			}
+			for _, e := range w.evs(a, "c-cand-recv") {
+				// the server answered this candidate's probe before the switch: it was probed as far as the server is
+				// concerned (a packet the script sent before can have been dropped unseen - the known reader-before-listener defect)
+				if e.S == "3|t:probe" && e.Seq < firstChangeSeq+3 {
+					ok = true
+					w.probe("switch_for_scripted_candidate_whose_probe_was_answered")
+				}
+			}
 			if !ok {
 				c := ""
 				if len(unprobed) > 0 {
@@ -104,7 +112,7 @@ func oracleC08(f *sessionFam, w *World, res *Result) []Violation {
 						l.add("switch-in-bounded-time", sp.Upgrade, fmt.Sprintf("%s [%s]: conformant switch took %v (> probe latency + 100 ms check + margin = %v)", a, ctx, d, lim))
 					}
 				}
-				if !closed && readyOf(f.snap[a]) != "open" {
+				if f.ended && !closed && readyOf(f.snap[a]) != "open" {
 					l.add("upgrade-keeps-session", "", fmt.Sprintf("%s [%s]: session is %s after a conformant upgrade", a, ctx, f.snap[a]))
 				}
 			}
